@@ -33,8 +33,10 @@ def case_of(job, r):
     rows = [x for _, rs in G.units_of(gir) for x in rs]
     flows = [[int(f["source_stmt_id"]), int(f["sink_stmt_id"])] for f in (r["exports"].get("taint") or [])]
     params = [x["stmt_id"] for x in rows if x.get("operation") == "parameter_decl" and x.get("name") == "p_src"]
+    # rule kind object_call: the method calls named *_src are the configured sources
+    stmts = [x["stmt_id"] for x in rows if x.get("operation") == "object_call_stmt" and str(x.get("field") or "").endswith("_src")]
     return {"name": ch.name, "rows": [G.machine_row(x) for x in rows], "temps": G.temps_of(rows), "expected": [], "start": "",
-            "check": "taint", "flows": flows, "param_sources": params, "source": ch.render()}
+            "check": "taint", "flows": flows, "param_sources": params, "stmt_sources": stmts, "source": ch.render()}
 
 
 def run(tier, seed):
